@@ -210,6 +210,27 @@ def argtext_unit(ctx, src):
     return u
 
 
+class PartsRule(Rule):
+    """`auto v = split(<string expr>, 'c'[, max_splits]);` -> the split model on slices (stubs/C17_args.h); `v[k]`, `std::move(v[k])`, `v.size()`
+    for the variables so declared (type-directed)"""
+
+    def __init__(self):
+        self.pat, self.count = 'split() results as slices', None
+
+    def apply(self, text, where=''):
+        names = []
+
+        def decl(mo):
+            names.append(mo.group(1))
+            return 'C17_parts %s = C17_split(%s, %s, %s);' % (mo.group(1), mo.group(2), mo.group(3), mo.group(4) or '0 /* default argument */')
+        text = re.sub(r"\b(?:auto|vector<string>|std::vector<std::string>) (\w+) = (?:phosg::)?split\((arg\.substr\([^()]*\)), ('(?:\\.|[^'\\])')(?:, ([^;()]+))?\);", decl, text)
+        for n in names:
+            text = re.sub(r'(?:std::)?move\(%s\[(\d+)\]\)' % n, r'C17_part(&%s, \1)' % n, text)
+            text = re.sub(r'\b%s\[(\d+)\]' % n, r'C17_part(&%s, \1)' % n, text)
+            text = re.sub(r'\b%s\.size\(\)' % n, '%s.count' % n, text)
+        return text
+
+
 def token_unit(ctx, src):
     """The body of `for (string& arg : args)` in Arguments::parse as a function of one token."""
     u = Unit(ctx, 'parse_token')
@@ -217,13 +238,14 @@ def token_unit(ctx, src):
     u.snippet(src, CC, r'void Arguments::parse\(vector<string>&& args\) \{\s*for \(string& arg : args\) \{')
     u.block(src, CC, r'void Arguments::parse\(vector<string>&& args\)', r'for \(string& arg : args\)',
             new_header='void Arguments_parse_token(Arguments_log* self, vstr* arg)',
-            rules=[Rule(r'arg\.substr\(([^(),]+), ([^(),]+)\)', r'C17_substr(arg, \1, \2)', count='+', regex=True),
+            rules=[PartsRule(),
+                   Rule(r'arg\.substr\(([^(),]+), ([^(),]+)\)', r'C17_substr(arg, \1, \2)', count=None, regex=True),
                    Rule(r'arg\.substr\(([^(),]+)\)', r'C17_substr(arg, \1, VSTR_NPOS)', count='+', regex=True),
                    Rule(r'self->positional\.emplace_back\(move\(arg\)\);', 'C17_positional_emplace_back(self, C17_whole(arg));', count='+', regex=True),
                    Rule(r'self->named\[(.*?)\]\.emplace_back\((.*?)\);', r'C17_named_emplace_back(self, \1, \2);', count='+', regex=True),
                    Rule('""', 'C17_empty()', count='+'),
                    Rule(r"arg\.find\(('[^']*'), ([^()]+)\)", r'C17_find(arg, \1, \2)', count=None, regex=True),
-                   Rule(r'\bstring::npos\b', 'VSTR_NPOS', count='+', regex=True),
+                   Rule(r'\bstring::npos\b', 'VSTR_NPOS', count=None, regex=True),
                    Rule('arg.empty()', '(arg->size == 0)', count=None),
                    Rule('arg.size()', 'arg->size', count=None),
                    Rule(r'\barg\[([^\]]+)\]', r'arg->data[\1]', count='+', regex=True)],
